@@ -3,7 +3,7 @@ from __future__ import annotations
 
 from hypothesis import strategies as st
 
-from ..core import Clause, Dev, eq, expect_raise, true
+from ..core import Clause, Dev, eq, expect_raise, pack_fresh, scribble, true
 from ..prop import Property
 from ..ref import ccsds as RC
 from ..ref import pus as RP
@@ -109,6 +109,50 @@ def check_tc(c):
     eq(devs, "sec.pack", bytes(sec.pack()), want[6:11])
     sec2 = tcm.PusTcDataFieldHeader.unpack(want[6:])
     eq(devs, "sec.unpack", (sec2.service, sec2.subservice, sec2.source_id, sec2.ack_flags), (c["service"], c["subservice"], c["source_id"], c["ack"]))
+    if len(app) <= 4096:
+        devs.extend(_tc_histories(sp, tcm, check_pus_crc, c, app, want, tc))
+    return devs
+
+
+def _tc_histories(sp, tcm, check_pus_crc, c, app, want, tc):
+    """The same statement along short call histories: views before packing, caller-owned mutable buffers, objects that were
+    decoded, fields changed through the public header objects - octets and views must not depend on the order of calls."""
+    devs = []
+    pack_fresh(devs, "hist.pack_returns_fresh_buffer", tc.pack, want)
+    # caller-owned bytearray as application data, space-packet view taken (twice) before packing
+    caller = bytearray(app)
+    t = build_tc(tcm, c, caller)
+    eq(devs, "hist.bytearray_app.view1", bytes(t.to_space_packet().pack()), want)
+    eq(devs, "hist.bytearray_app.view2", bytes(t.to_space_packet().pack()), want)
+    eq(devs, "hist.bytearray_app.pack_after_views", bytes(t.pack()), want)
+    eq(devs, "hist.bytearray_app.packet_len_after_views", t.packet_len, len(want))
+    eq(devs, "hist.bytearray_app.caller_buffer_untouched", bytes(caller), app)
+    eq(devs, "hist.bytearray_app.app_data_after_views", bytes(t.app_data), app)
+    # decoded from a caller-owned buffer that is reused afterwards; view, then re-pack
+    buf = bytearray(want + b"\x18\x00")
+    d = tcm.PusTc.unpack(buf)
+    scribble(buf)
+    eq(devs, "hist.decoded.fields_after_caller_reused_buffer", obs_tc(d), want_obs(c, app))
+    eq(devs, "hist.decoded.view", bytes(d.to_space_packet().pack()), want)
+    eq(devs, "hist.decoded.view_again", bytes(d.to_space_packet().pack()), want)
+    eq(devs, "hist.decoded.repack_after_views", bytes(d.pack()), want)
+    eq(devs, "hist.decoded.crc16", bytes(d.crc16), want[-2:])
+    # a packed (or decoded) telecommand is changed through its public header objects; the view is taken before the next pack
+    o_service, o_sub, o_ack, o_seq, o_apid = (c["service"] + 1) % 256, (c["subservice"] + 3) % 256, c["ack"] ^ 0x5, (c["seq"] + 1) % 16384, (c["apid"] + 1) % 2048
+    want2 = RP.pus_tc(o_apid, o_seq, o_service, o_sub, c["source_id"], o_ack, app)
+    for tag, obj in (("packed", build_tc(tcm, c, app)), ("decoded", tcm.PusTc.unpack(want))):
+        obj.pack()
+        obj.pus_tc_sec_header.service = o_service
+        obj.pus_tc_sec_header.subservice = o_sub
+        obj.pus_tc_sec_header.ack_flags = o_ack
+        obj.sp_header.seq_count = o_seq
+        obj.sp_header.apid = o_apid
+        view = bytes(obj.to_space_packet().pack())
+        eq(devs, f"hist.header_objects_changed.{tag}.view_before_pack", view, want2)
+        true(devs, f"hist.header_objects_changed.{tag}.view_crc", check_pus_crc(view) is True, "space-packet view carries a stale CRC")
+        eq(devs, f"hist.header_objects_changed.{tag}.pack", bytes(obj.pack()), want2)
+        obj.calc_crc()
+        eq(devs, f"hist.header_objects_changed.{tag}.calc_crc", bytes(obj.crc16), want2[-2:])
     return devs
 
 
